@@ -53,6 +53,7 @@ def run_oracles(prog, meta, sessions):
     out = []
     completed = set()       # tasks that currently have a cached output (XE seen, no XS since)
     had_abort = False
+    latest_ops = {}
     wf = prog.kind == 'wf'
     for si, s in enumerate(sessions):
         ab = aborted(s)
@@ -154,6 +155,26 @@ def run_oracles(prog, meta, sessions):
                     for rd in readers:
                         if rd != w and w not in P.reach(nodes, rd):
                             out.append(('C05', 'reader-without-path', '%s: build returned although %s reads %s written by %s without (transitively) requiring it' % (where, rd, name, w)))
+        # harness-side record: who wrote / read what in its latest completed execution (across the history)
+        for e in s.execlog:
+            f = e.split()
+            if f[0] == 'XS':
+                latest_ops.pop(int(f[1]), None)
+        for t, ops, ok in exec_stack_ops(s.execlog):
+            if ok: latest_ops[t] = ops
+        if not ab and '!BAD' not in nodes:
+            wr = {}
+            for t, ops in latest_ops.items():
+                for (k, tgt, c) in ops:
+                    if k == 'W': wr.setdefault(tgt, set()).add(t)
+            for tgt, ws in wr.items():
+                rec = [src for (k, src) in nodes.get(tgt, {}).get('ins', []) if k == 'W']
+                if len(ws) > 1:
+                    out.append(('C06', 'two-writers-log', '%s: build returned although tasks %r all wrote %s in their latest executions' % (where, sorted(ws), tgt)))
+                for w_ in ws:
+                    if 'T%d' % w_ not in rec:
+                        out.append(('C05', 'writer-not-recorded', '%s: task %d wrote %s in its latest execution but the store records writer(s) %r, so readers are not checked against it' % (where, w_, tgt, rec)))
+
         # write-side abort happens before the resource is modified (Context::write only; written_to declares a write
         # that already happened)
         tries = [e for e in s.execlog if e.startswith('try ')]
